@@ -1,7 +1,9 @@
 // c18: program results do not depend on semantics-neutral options.
 // Every generated program is evaluated in 128 interpreters, one per combination of
-//   OptDebugger, OptCollectDeclarations, OptCollectStatements, OptTrapPanic, OptPanicStackTrace  (32)
-//   x etoken.GENERICS in {NONE, V2_CTI} (programs are generic-free) x OptKeepUntyped (off/on),
+//
+//	OptDebugger, OptCollectDeclarations, OptCollectStatements, OptTrapPanic, OptPanicStackTrace  (32)
+//	x etoken.GENERICS in {NONE, V2_CTI} (programs are generic-free) x OptKeepUntyped (off/on),
+//
 // through the REPL entry Interp.ParseEvalPrint (the path that consults OptTrapPanic/OptPanicStackTrace and the
 // collection options).  Direct oracle: the observation (result value and type, emit log, panic value) of every
 // configuration equals that of configuration 0.  A second stream evaluates constant expressions with Interp.Eval:
@@ -97,11 +99,24 @@ func (c *config) eval(src string) string {
 		// not trapped: the panic value itself
 		return firstLine(fmt.Sprintf("%v", p))
 	}
-	if c.opts&base.OptTrapPanic != 0 && c.stderr.Len() > 0 {
+	if c.opts&base.OptTrapPanic != 0 {
 		// trapped: ParseEvalPrint printed "%v\n" (+ stack trace) of the recovered value
-		return firstLine(c.stderr.String())
+		return firstLine(stripWarnings(c.stderr.String()))
 	}
 	return ""
+}
+
+// stripWarnings removes the leading diagnostics printed with Output.Warnf ("// warning: ...", e.g. the once-only
+// "breakpoint: no debugger set"): they are not panics
+func stripWarnings(s string) string {
+	for strings.HasPrefix(s, "// warning: ") {
+		i := strings.IndexByte(s, '\n')
+		if i < 0 {
+			return ""
+		}
+		s = s[i+1:]
+	}
+	return s
 }
 
 func firstLine(s string) string {
@@ -186,13 +201,16 @@ func (c *config) evalConst(src string) string {
 func main() {
 	a := vh.ParseArgs()
 	rng := vh.NewRng(a.Seed)
-	rep := vh.NewReport(a, "PRNG programs of 6 classes (expr: typed integer/float/string arithmetic of 10 integer kinds; flow: for/range/switch/fallthrough/labelled break+continue/if-else chains; closure: counters, captured loop variables, fold, recursive closure; "+
+	rep := vh.NewReport(a, "PRNG programs of 7 classes (expr: typed integer/float/string arithmetic of 10 integer kinds; flow: for/range/switch/fallthrough/labelled break+continue/if-else chains; closure: counters, captured loop variables, fold, recursive closure; "+
 		"defer: defer/panic/recover with named results, runtime panics, 1/2 ending in an uncaught panic (user, nil map, nil pointer, division by zero); composite: structs, methods, interfaces, maps, slices, arrays, type switch; "+
-		"mini: the statement language of the Coq model) + untyped constant expressions; each evaluated in 128 interpreters = every subset of {OptDebugger, OptCollectDeclarations, OptCollectStatements, OptTrapPanic, OptPanicStackTrace, OptKeepUntyped} x GENERICS {NONE, V2_CTI} through Interp.ParseEvalPrint; "+
+		"embed: promoted fields and methods through named and UNNAMED struct types - values, &struct{..}{..}, new(struct{..}), variables, slice/map elements and fields of struct-literal type, embedding by value and by pointer, method values, interface satisfaction; "+
+		"mini: the statement language of the Coq model, breakpoint statements included); a third of the non-mini programs get breakpoint statements (\"break\" / _ = \"break\", no debugger installed) at the start of function, loop and if/else bodies; + untyped constant expressions; each evaluated in 128 interpreters = every subset of {OptDebugger, OptCollectDeclarations, OptCollectStatements, OptTrapPanic, OptPanicStackTrace, OptKeepUntyped} x GENERICS {NONE, V2_CTI} through Interp.ParseEvalPrint; "+
 		"one evaluated case = one (program, configuration); non-trivial when the program produced >= 1 emit or a panic; distinct by SHA-256 of program text + configuration")
 	nProg, nConst := 63, 60
 	if a.Thorough() {
-		nProg, nConst = 1400, 2000
+		// measured 2026-09-22 on the loaded machine: ~1.15 s per program and ~0.6 s per constant (128 configurations each,
+		// sequential because etoken.GENERICS is a process global); 1400/2000 took 49 min, 640/600 stays below 25 min
+		nProg, nConst = 640, 600
 	}
 	if a.N > 0 {
 		nProg = a.N
@@ -202,6 +220,7 @@ func main() {
 	ncfg := 1 << uint(len(optBits)+1)
 	cfgs := make([]*config, ncfg)
 	for i := range cfgs {
+		wd.Beat(fmt.Sprintf("creating interpreter %d of %d", i+1, ncfg)) // (seconds each on a loaded machine)
 		cfgs[i] = newConfig(i)
 	}
 	cw := vh.NewCases(a, "From Coq Require Import List ZArith Bool.\nFrom Verif Require Import C18.Model.\nImport ListNotations.\nOpen Scope Z_scope.", "case", "mismatches", 40)
@@ -215,6 +234,9 @@ func main() {
 			if ci == 0 {
 				ref = o
 				rep.Dist("class:" + p.Class)
+				if p.Breaks > 0 || strings.Contains(p.Mini, "SBreak") {
+					rep.Dist("with-breakpoint-statements")
+				}
 				switch {
 				case o.DeclPanic != "":
 					rep.Dist("outcome:declaration-error")
